@@ -161,7 +161,7 @@ pub fn real_templates(n: u32) -> Vec<(&'static str, Configuration<Sphere>)> {
             ("real_sa", sa::real_sa(sa::RealProblemParameters { t_0: 5.0, alpha: 0.9, deviation: 0.3 }, cond(n)).unwrap()),
             ("real_ls", ls::real_ls(ls::RealProblemParameters { n_neighbors: 4, deviation: 0.3 }, cond(n)).unwrap()),
             ("real_ils", ils::real_ils(ils::RealProblemParameters { ls_params: ls::RealProblemParameters { n_neighbors: 3, deviation: 0.3 }, ls_condition: cond(3) }, cond(5)).unwrap()),
-            ("real_iwo", iwo::real_iwo(iwo::RealProblemParameters { initial_population_size: 4, max_population_size: 8, min_number_of_seeds: 0, max_number_of_seeds: 3, initial_deviation: 0.1, final_deviation: 1.0, modulation_index: 2 }, cond(n)).unwrap()),
+            ("real_iwo", iwo::real_iwo(iwo::RealProblemParameters { initial_population_size: 4, max_population_size: 8, min_number_of_seeds: 0, max_number_of_seeds: 3, initial_deviation: 1.0, final_deviation: 0.1, modulation_index: 2 }, cond(n)).unwrap()),
             ("real_mu_plus_lambda_es", es::real_mu_plus_lambda_es::<Sphere, ()>(es::RealProblemParameters { population_size: 4, lambda: 8, deviation: 0.3 }, cond(n)).unwrap()),
             ("real_de", de::real_de(de::RealProblemParameters { population_size: 8, y: 1, f: 0.5, pc: 0.8 }, cond(n)).unwrap()),
             ("real_fa", fa::real_fa(fa::RealProblemParameters { pop_size: 5, alpha: 0.25, beta: 1.0, gamma: 1.0, delta: 0.97 }, cond(n)).unwrap()),
@@ -410,7 +410,7 @@ fn corner_templates(n: u32) -> Vec<(String, Configuration<Sphere>, Option<(usize
     }
     v.push(("real_ls[1 neighbour]".into(), ls::real_ls(ls::RealProblemParameters { n_neighbors: 1, deviation: 0.3 }, cond(n)).unwrap(), Some((1, 1))));
     for (init, max, lo, hi) in [(1u32, 1u32, 1u32, 1u32), (3, 3, 0, 2), (2, 6, 2, 2), (1, 4, 0, 5)] {
-        v.push((format!("real_iwo[initial={init} max={max} seeds={lo}..{hi}]"), iwo::real_iwo(iwo::RealProblemParameters { initial_population_size: init, max_population_size: max, min_number_of_seeds: lo, max_number_of_seeds: hi, initial_deviation: 0.1, final_deviation: 1.0, modulation_index: 2 }, cond(n)).unwrap(), Some((1, max as usize))));
+        v.push((format!("real_iwo[initial={init} max={max} seeds={lo}..{hi}]"), iwo::real_iwo(iwo::RealProblemParameters { initial_population_size: init, max_population_size: max, min_number_of_seeds: lo, max_number_of_seeds: hi, initial_deviation: 1.0, final_deviation: 0.1, modulation_index: 2 }, cond(n)).unwrap(), Some((1, max as usize))));
     }
     for (mu, lambda) in [(1u32, 1u32), (3, 1), (1, 5), (4, 4)] {
         v.push((format!("real_mu_plus_lambda_es[mu={mu} lambda={lambda}]"), es::real_mu_plus_lambda_es::<Sphere, ()>(es::RealProblemParameters { population_size: mu, lambda, deviation: 0.3 }, cond(n)).unwrap(), Some((mu as usize, mu as usize))));
